@@ -2996,13 +2996,25 @@ class Choice(Set):
 
     _currentIdx = None
 
+    def _holdsOtherAlternative(self, other):
+        # two values of one CHOICE type are equal only if they hold
+        # the same alternative (a:5 is not b:5)
+        return (isinstance(other, Choice) and
+                other.componentType is self.componentType and
+                other._currentIdx is not None and
+                other._currentIdx != self._currentIdx)
+
     def __eq__(self, other):
         if self._componentValues:
+            if self._holdsOtherAlternative(other):
+                return False
             return self._componentValues[self._currentIdx] == other
         return NotImplemented
 
     def __ne__(self, other):
         if self._componentValues:
+            if self._holdsOtherAlternative(other):
+                return True
             return self._componentValues[self._currentIdx] != other
         return NotImplemented
 
